@@ -440,6 +440,165 @@ func runC14(c *Ctx) {
 	c.Rule("C14.E9", "GATE", "a pointer field tagged rlp:\"nil\" can be nil after decoding hostile bytes: every dereference of such a field in the repository (field access, load, or handing it to a function that dereferences its parameter unconditionally) is dominated by a nil test of that field — message handlers reject rather than crash")
 	c.Min(1)
 	c14E9(c, w)
+
+	// ------------------------------------------------------------ E10
+	c.Rule("C14.E10", "GATE", "integers have one encoding: in package rlp every (*big.Int).SetBytes of bytes read with (*Stream).Bytes() is reached only on paths that established that the bytes are empty or that the first byte is not zero (ErrCanonInt otherwise) — a zero-padded integer of nine or more bytes would otherwise be accepted into transaction values, signatures, header numbers and stakes and re-encode to different bytes")
+	c.Min(1)
+	{
+		bytesObj := w.FuncObj("rlp", "Stream", "Bytes")
+		nSB := 0
+		for _, fn := range w.FuncsIn("rlp") {
+			if fn.Blocks == nil || strings.HasSuffix(w.fileOf(fn.Pos()), "_test.go") {
+				continue
+			}
+			for _, ci := range callInstrs(fn) {
+				o := calleeObj(ci)
+				if o == nil || o.Name() != "SetBytes" || o.Pkg() == nil || o.Pkg().Path() != "math/big" {
+					continue
+				}
+				arg := callArgs(ci)[0]
+				var src *ssa.Call
+				backward(arg, func(v ssa.Value) bool {
+					if cc, ok := v.(*ssa.Call); ok {
+						if sameFunc(calleeObj(cc), bytesObj) {
+							src = cc
+						}
+						return false
+					}
+					return src == nil
+				})
+				if src == nil {
+					continue
+				}
+				nSB++
+				c.sawFunc(fname(fn))
+				fromSrc := func(v ssa.Value) bool {
+					return derivesFrom(v, func(x ssa.Value) bool { return x == ssa.Value(src) })
+				}
+				nPaths, bad := 0, 0
+				okEnum := pathsBetween(fn, fn.Blocks[0], ci.Block(), 4096, func(blocks []*ssa.BasicBlock, facts []Fact) {
+					// only paths on which the bytes were read
+					read := false
+					for _, b := range blocks {
+						if b == src.Block() {
+							read = true
+						}
+					}
+					if !read {
+						return
+					}
+					atoms := atomsOf(facts)
+					if contradictoryAtoms(atoms) {
+						return
+					}
+					nPaths++
+					okPath := false
+					for _, a := range atoms {
+						switch a.Kind {
+						case "eq":
+							// b[0] == 0 decided false (or != 0 decided true)
+							if a.Y == nil || a.Truth {
+								continue
+							}
+							for _, pair := range [][2]ssa.Value{{a.X, a.Y}, {a.Y, a.X}} {
+								if n, isC := constInt(pair[1]); isC && n == 0 {
+									if ld, isLd := stripConv(pair[0]).(*ssa.UnOp); isLd && ld.Op == token.MUL {
+										if ia, isIA := ld.X.(*ssa.IndexAddr); isIA && fromSrc(ia.X) {
+											if k, isK := constInt(ia.Index); isK && k == 0 {
+												okPath = true
+											}
+										}
+									}
+								}
+							}
+						case "cmp":
+							// len(b) > 0 decided false: no bytes
+							if cc, isCall := stripConv(a.X).(*ssa.Call); isCall {
+								if bi, isB := cc.Call.Value.(*ssa.Builtin); isB && bi.Name() == "len" && fromSrc(cc.Call.Args[0]) {
+									if n, isC := constInt(a.Y); isC && ((a.Op == token.GTR && n == 0 && !a.Truth) || (a.Op == token.GEQ && n == 1 && !a.Truth) || (a.Op == token.LSS && n == 1 && a.Truth) || (a.Op == token.LEQ && n == 0 && a.Truth)) {
+										okPath = true
+									}
+								}
+							}
+						}
+					}
+					if !okPath {
+						bad++
+					}
+				})
+				c.sites += nPaths
+				cons := fmt.Sprintf("%s#SetBytes-only-of-canonical-bytes-%d", fname(fn), nSB)
+				if !okEnum {
+					c.Undecided(cons, ci.Pos(), "paths to SetBytes could not be enumerated")
+					continue
+				}
+				c.Check(cons, ci.Pos(), bad == 0 && nPaths > 0, ifelse(bad == 0 && nPaths > 0, fmt.Sprintf("all %d paths rejected a leading zero byte (or have no bytes)", nPaths), fmt.Sprintf("%d of %d paths convert bytes read from the stream into a big integer without the leading-zero test: 0x8a0001… is accepted and re-encodes shorter, so equal objects (same hash) have several encodings", bad, nPaths)))
+			}
+		}
+		if nSB == 0 {
+			c.Undecided("rlp#SetBytes-of-stream-bytes", token.NoPos, "no SetBytes of bytes read with Stream.Bytes found in package rlp (decodeBigInt is expected)")
+		}
+	}
+
+	// ------------------------------------------------------------ E11
+	c.Rule("C14.E11", "GATE", "hand-written decoders keep the width of what they read: in every DecodeRLP method of the repository (and its small helpers) an integer read with the 64-bit (*rlp.Stream).Uint() is not converted to a narrower integer type without a dominating range comparison on it — the reflective decoder enforces the field's width, a conversion keeps the low byte(s) and accepts 0x0103 as 3")
+	c.Min(8)
+	{
+		uintObj := w.FuncObj("rlp", "Stream", "Uint")
+		nDec := 0
+		for _, fn := range w.AllFuncs() {
+			if fn.Blocks == nil || fn.Pkg == nil || !strings.HasPrefix(fn.Pkg.Pkg.Path(), modPath) || fn.Name() != "DecodeRLP" || strings.HasSuffix(w.fileOf(fn.Pos()), "_test.go") {
+				continue
+			}
+			nDec++
+			c.sites++
+			bad := ""
+			for _, g := range withSmallHelpers(fn) {
+				for _, b := range g.Blocks {
+					for _, in := range b.Instrs {
+						cv, ok := in.(*ssa.Convert)
+						if !ok {
+							continue
+						}
+						bt, isBasic := cv.Type().Underlying().(*types.Basic)
+						if !isBasic || bt.Info()&types.IsInteger == 0 {
+							continue
+						}
+						switch bt.Kind() {
+						case types.Uint64, types.Int64, types.Uint, types.Int, types.Uintptr:
+							continue
+						}
+						var src ssa.Value
+						backward(cv.X, func(v ssa.Value) bool {
+							if cc, isCall := v.(*ssa.Call); isCall {
+								if sameFunc(calleeObj(cc), uintObj) {
+									src = cv.X
+								}
+								return false
+							}
+							return src == nil
+						})
+						if src == nil {
+							continue
+						}
+						ranged := false
+						for _, a := range atomsOf(factsAtInstr(cv)) {
+							if a.Kind == "cmp" && (stripConv(a.X) == stripConv(cv.X) || (a.Y != nil && stripConv(a.Y) == stripConv(cv.X))) {
+								ranged = true
+							}
+						}
+						if !ranged && bad == "" {
+							bad = w.Pos(cv.Pos()) + " (to " + bt.Name() + ")"
+						}
+					}
+				}
+			}
+			c.Check(fname(fn)+"#no-silent-narrowing", fn.Pos(), bad == "", ifelse(bad == "", "no integer read with Stream.Uint() is narrowed without a range check", "an integer read with the 64-bit Stream.Uint() is narrowed at "+bad+" without a range check: a wider encoding of the same low byte is accepted, re-encodes to different bytes, and every variant of a signed message verifies"))
+		}
+		if nDec == 0 {
+			c.Undecided("DecodeRLP-methods", token.NoPos, "no DecodeRLP method found")
+		}
+	}
 }
 
 func c14E7(c *Ctx, w *World) {
